@@ -838,6 +838,11 @@ func filterPhone2numeric(in *Value, param *Value) (*Value, *Error) {
 func filterPluralize(in *Value, param *Value) (*Value, *Error) {
 	if in.IsNumber() {
 		// Works only on numbers
+		singular := in.Integer() == 1
+		if in.IsFloat() {
+			// 1.5 of something is plural
+			singular = in.Float() == 1
+		}
 		if param.Len() > 0 {
 			endings := strings.Split(param.String(), ",")
 			if len(endings) > 2 {
@@ -848,18 +853,18 @@ func filterPluralize(in *Value, param *Value) (*Value, *Error) {
 			}
 			if len(endings) == 1 {
 				// 1 argument
-				if in.Integer() != 1 {
+				if !singular {
 					return AsValue(endings[0]), nil
 				}
 			} else {
-				if in.Integer() != 1 {
+				if !singular {
 					// 2 arguments
 					return AsValue(endings[1]), nil
 				}
 				return AsValue(endings[0]), nil
 			}
 		} else {
-			if in.Integer() != 1 {
+			if !singular {
 				// return default 's'
 				return AsValue("s"), nil
 			}
